@@ -300,7 +300,7 @@ class ClosureResult:
         self.run_events = 0
 
 
-def close(program, world0, ghost0, client_actions, run_action, monitor, make_hooks, configure=None, max_states=200000, sample_every=97, check_world=None):
+def close(program, world0, ghost0, client_actions, run_action, monitor, make_hooks, configure=None, max_states=200000, sample_every=97, check_world=None, stop_rules=None):
     """Fixed point of `run_action` over all client actions from all reachable typestates.
 
     world0      heap (dict of roots) of the initial typestate
@@ -349,6 +349,9 @@ def close(program, world0, ghost0, client_actions, run_action, monitor, make_hoo
                     res.aborted += 1
                     continue
                 g2, viols = monitor(copy.deepcopy(ghost), action, hooks.events, obs, outcome, w)
+                if stop_rules is not None:
+                    # rules owned by other properties neither report nor cut the exploration here
+                    viols = [v for v in viols if v[0] in stop_rules]
                 res.run_events += len(hooks.events)
                 res.transitions += 1
                 if viols:
